@@ -30,6 +30,8 @@ CLAIMS = {
             "graphs x sessions replayed with frozen and snapshotted memory; traces validated against RevAbs", "4 C10"),
     "C11": ("model_checking", "sparse/dense accumulation: every arrival order of sparse and dense contributions at a shared value (star graphs), "
             "SparseObject primitives and built-in x[idx]; traces validated against RevAbs", "4 C11"),
+    "C12": ("model_checking", "Containers.tla: trees, access operations resolved to leaves, gradients as summed weights, flatten laws model-checked; every "
+            "(tree, program, output mode) replayed on autograd's container boxes and misc.flatten, judged by TLC", "4 C12"),
     "C13": ("model_checking", "VSpaceAlg.tla: the algebra of autograd's vector spaces over structure trees; axioms model-checked; every enumerated "
             "(space, vectors, scalars) replayed on the real vspace for all dtypes/containers and judged by TLC (operations = algebra, freshness, space equality)", "4 C13"),
     "C14": ("model_checking", "AGM programs whose output is independent of the variable or depends on it only through a notrace primitive, every "
